@@ -110,7 +110,7 @@ func (c C12Case) syncInterval() time.Duration {
 const c12Rule = "1-3 writer tasks (Put/Remove) on a store with BurstRate(0) and a pinned tiny flush rate (verif-tagged setter) so that every write enters the waiting path, the real flusher goroutine adopted as a scheduled task at its first named point, 0-2 explicit Flush tasks; the cooperative scheduler parks tasks at the named points in flushTick (measured, decided, registered, signalled), Flush and run and follows a generated schedule (single long preemption at a drawn point, PCT-style priorities, random walk); " +
 	"oracle = bounded-liveness closure: after the generated schedule everything runs freely and three further explicit Flush() calls complete; every writer must return. The verdict is taken from goroutine states, not from elapsed time: a writer still in the channel receive of the back-pressure wait while the flusher sits idle in its select and no Flush is in progress can never be released. " +
 	"Failed-flush part: a store that is not started (explicit flushes only), a waiting writer, one Flush made to fail by a stray file at the next primary file name, the stray file removed, three more Flush calls: the writer must be released (state-based verdict). " +
-	"Single-writer part: one writer, burst rates 0..4000, 5-60 Put/Remove calls with values of 1-200 bytes on keys of few buckets, periodic interval one hour (or 20 us..1 ms, so that ticks meet the writer's signals) and no Flush issued by the harness: a call that waits must be released by the flush it asked for itself (same state-based verdict, taken while the call is still waiting). " +
+	"Single-writer part: one writer, burst rates 0..4000, 5-60 Put/Remove calls with values of 1-200 bytes on keys of few buckets, periodic interval one hour (or 20 us..1 ms, so that ticks meet the writer's signals) and no Flush issued by the harness: a call that waits must be released by the flush it asked for itself (same state-based verdict, taken while the call is still waiting); in a quarter of the cases Store.Start is only called once the first call waits (or has returned), and the request for a flush it left behind must still be honoured. " +
 	"non-trivial = a flush completed between a writer's decision to wait and its registration for the notice (observed in the event order); (scheduled part), >=2 writers (free-running part), the writer did enter the wait (single-writer part); distinct = distinct canonical JSON of the case"
 
 var c12Points = []string{"tick.measured", "tick.decided", "tick.registered", "tick.signalled", "flush.stamped", "flush.committed", "put.indexed", "remove.done", "run.flushNow"}
